@@ -54,7 +54,11 @@ pub enum Ev {
 }
 
 pub struct Ledger {
-    pub recs: Vec<Rec>, // index = id (id 0 unused)
+    /// index = id - base (index 0 unused). `base` grows at every reset, so ids are never reused
+    /// within a process: a stale byte-copy of a token from an earlier case can never be mistaken
+    /// for a live token of the current case.
+    pub recs: Vec<Rec>,
+    pub base: u64,
     pub live: u64,
     pub pinned: u64,
     pub created: u64,
@@ -67,6 +71,8 @@ pub struct Ledger {
     /// rolling digest of every client-boundary event (creation, destruction, touch with site,
     /// value edits, scalars fed by the harness): the canonical trace compared by C16/C18
     pub digest: u64,
+    /// tokens created since the epoch (= operation) started: runaway guard
+    pub epoch_created: u64,
 }
 
 #[inline]
@@ -97,11 +103,21 @@ fn site_tag(s: &str) -> u64 {
 }
 
 impl Ledger {
+    #[inline]
+    pub fn idx(&self, id: u64) -> Option<usize> {
+        let i = id.checked_sub(self.base)?;
+        if i == 0 || i >= self.recs.len() as u64 {
+            None
+        } else {
+            Some(i as usize)
+        }
+    }
     fn new() -> Self {
         let mut recs = Vec::with_capacity(1 << 16);
         recs.push(Rec { st: St::Dead, drops: 0, val: 0, parent: 0, epoch: 0 });
         Ledger {
             recs,
+            base: 0,
             live: 0,
             pinned: 0,
             created: 0,
@@ -112,6 +128,7 @@ impl Ledger {
             drop_log: Vec::new(),
             log_drops: false,
             digest: 0,
+            epoch_created: 0,
         }
     }
 }
@@ -128,7 +145,9 @@ pub fn with_ledger<R>(f: impl FnOnce(&mut Ledger) -> R) -> R {
 /// Forget everything: new case. Keeps capacity.
 pub fn ledger_reset() {
     with_ledger(|l| {
+        l.base += l.recs.len() as u64;
         l.recs.truncate(1);
+        l.epoch_created = 0;
         l.live = 0;
         l.pinned = 0;
         l.epoch = 0;
@@ -143,16 +162,24 @@ pub fn ledger_live() -> u64 {
     with_ledger(|l| l.live - l.pinned.min(l.live))
 }
 pub fn ledger_next_id() -> u64 {
-    with_ledger(|l| l.recs.len() as u64)
+    with_ledger(|l| l.base + l.recs.len() as u64)
 }
 pub fn ledger_set_epoch(e: u32) {
-    with_ledger(|l| l.epoch = e)
+    with_ledger(|l| {
+        l.epoch = e;
+        l.epoch_created = 0;
+    })
 }
+
+/// payload of the panic raised when one operation creates an absurd number of elements (a loop
+/// around a user callback that never ends)
+pub struct Runaway;
+pub const RUNAWAY_LIMIT: u64 = 3_000_000;
 pub fn ledger_epoch() -> u32 {
     with_ledger(|l| l.epoch)
 }
 pub fn ledger_state(id: u64) -> Option<Rec> {
-    with_ledger(|l| l.recs.get(id as usize).copied().filter(|_| id != 0))
+    with_ledger(|l| l.idx(id).map(|i| l.recs[i]))
 }
 pub fn ledger_is_live(id: u64) -> bool {
     ledger_state(id).map(|r| r.st == St::Live).unwrap_or(false)
@@ -164,15 +191,17 @@ pub fn ledger_root(id: u64) -> u64 {
     with_ledger(|l| {
         let mut cur = id;
         loop {
-            match l.recs.get(cur as usize) {
-                Some(r) if r.parent != 0 => cur = r.parent,
+            match l.idx(cur).map(|i| l.recs[i]) {
+                // a parent always has a smaller id; anything else comes from garbage bytes that were
+                // cloned (a violation reported elsewhere) and must not send this walk in circles
+                Some(r) if r.parent != 0 && r.parent < cur => cur = r.parent,
                 _ => return cur,
             }
         }
     })
 }
 pub fn ledger_parent(id: u64) -> u64 {
-    with_ledger(|l| l.recs.get(id as usize).map(|r| r.parent).unwrap_or(0))
+    with_ledger(|l| l.idx(id).map(|i| l.recs[i].parent).unwrap_or(0))
 }
 pub fn ledger_live_ids() -> Vec<u64> {
     with_ledger(|l| {
@@ -181,7 +210,7 @@ pub fn ledger_live_ids() -> Vec<u64> {
             .enumerate()
             .skip(1)
             .filter(|(_, r)| r.st == St::Live)
-            .map(|(i, _)| i as u64)
+            .map(|(i, _)| l.base + i as u64)
             .collect()
     })
 }
@@ -199,8 +228,16 @@ pub fn ledger_take_drop_log() -> Vec<u64> {
 }
 
 fn ledger_new_id(val: u32, parent: u64) -> u64 {
+    let runaway = with_ledger(|l| {
+        l.epoch_created += 1;
+        l.epoch_created == RUNAWAY_LIMIT
+    });
+    if runaway && !std::thread::panicking() {
+        LAST_PANIC.with(|p| *p.borrow_mut() = Some(("runaway: one call created more than 3e6 elements through user callbacks".to_string(), "harness:runaway_guard".to_string())));
+        std::panic::resume_unwind(Box::new(Runaway));
+    }
     with_ledger(|l| {
-        let id = l.recs.len() as u64;
+        let id = l.base + l.recs.len() as u64;
         let epoch = l.epoch;
         l.recs.push(Rec { st: St::Live, drops: 0, val, parent, epoch });
         l.live += 1;
@@ -389,7 +426,8 @@ impl<P: Pad> TokG<P> {
     pub fn new_pinned(val: u32) -> Self {
         let t = Self::new(val);
         with_ledger(|l| {
-            l.recs[t.id as usize].epoch = PINNED;
+            let i = l.idx(t.id).unwrap();
+            l.recs[i].epoch = PINNED;
             l.pinned += 1;
         });
         t
@@ -408,8 +446,8 @@ impl<P: Pad> TokG<P> {
         self.val = val;
         self.chk = mix(self.id, val);
         with_ledger(|l| {
-            if let Some(r) = l.recs.get_mut(self.id as usize) {
-                r.val = val;
+            if let Some(i) = l.idx(self.id) {
+                l.recs[i].val = val;
             }
         });
     }
@@ -421,11 +459,14 @@ impl<P: Pad> TokG<P> {
         with_ledger(|l| {
             l.touches += 1;
             l.digest = dmix(l.digest, site_tag(site), id ^ ((val as u64) << 40));
-            if chk != mix(id, val) || id == 0 || id as usize >= l.recs.len() {
-                l.events.push(Ev::GarbageTouched(id, chk, site));
-                return false;
-            }
-            if l.recs[id as usize].st == St::Dead {
+            let i = match l.idx(id) {
+                Some(i) if chk == mix(id, val) => i,
+                _ => {
+                    l.events.push(Ev::GarbageTouched(id, chk, site));
+                    return false;
+                }
+            };
+            if l.recs[i].st == St::Dead {
                 l.events.push(Ev::StaleTouched(id, site));
                 return false;
             }
@@ -440,12 +481,15 @@ impl<P: Pad> Drop for TokG<P> {
         let ok = with_ledger(|l| {
             l.touches += 1;
             l.digest = dmix(l.digest, 0xD0, id ^ ((val as u64) << 40));
-            if chk != mix(id, val) || id == 0 || id as usize >= l.recs.len() {
-                l.events.push(Ev::GarbageTouched(id, chk, "drop"));
-                return false;
-            }
+            let i = match l.idx(id) {
+                Some(i) if chk == mix(id, val) => i,
+                _ => {
+                    l.events.push(Ev::GarbageTouched(id, chk, "drop"));
+                    return false;
+                }
+            };
             let log = l.log_drops;
-            let r = &mut l.recs[id as usize];
+            let r = &mut l.recs[i];
             r.drops = r.drops.saturating_add(1);
             if r.st == St::Dead {
                 l.events.push(Ev::DoubleDrop(id));
